@@ -116,4 +116,16 @@ def WFRec (z : ZoneControlData) : Prop := z.zone_number < 256 ∧ WFSetting z.zo
 
 def WF (m : Msg) : Prop := ∀ z ∈ m.zone_control, WFRec z
 
+/-- run-time test of `WFSetting` -/
+def wfSettingBool : Option ZoneSetting → Bool
+  | some (.damper p) => decide (p < 256)
+  | some (.setPoint sp) => decide (100 ≤ sp) && decide (sp ≤ 355)
+  | _ => true
+
+/-- run-time test of `WFRec` -/
+def wfRecBool (z : ZoneControlData) : Bool := decide (z.zone_number < 256) && wfSettingBool z.zone_setting
+
+/-- run-time test of `WF` -/
+def wfBool (m : Msg) : Bool := m.zone_control.all wfRecBool
+
 end PyAirtouch.Model.At5.C020
